@@ -99,6 +99,14 @@ def run(res, tier, seed):
             maps.append(rename.fresh_labels(rng, names))
         for lm in maps:
             cases.append((s, {}, lm, rename.apply(s, {}, lm)))
+    # names that look like the analyzer's own bookkeeping (every return after a function's first is
+    # rewritten into a jump to an internal label): a function may be called that (F-53)
+    RETN = ("main:\n    li   a0, 3\n    li   a2, 4\n    jal  helper___\n    jal  two\n    li   a7, 1\n    ecall\n    li   a7, 10\n"
+            "    ecall\nhelper___:\n    add  a0, a0, a2\n    ret\ntwo:\n    li   a2, 5\n    beqz a0, other\n    li   a0, 7\n    ret\n"
+            "other:\n    li   a0, 9\n    ret\n")
+    for nm in ("__return__", "__RETURN__", "_return_", "return", "__entry__", "__exit__", "program_entry", "func_entry"):
+        lm = {"helper___": nm}
+        cases.append((RETN, {}, lm, rename.apply(RETN, {}, lm)))
     reqs = []
     for s, pm, lm, s2 in cases:
         reqs.append(pipe_req("lints,run", [("m.s", s)]))
